@@ -197,6 +197,7 @@ type BuildReq struct {
 	PreferIndex bool     `json:"prefer_index,omitempty"`
 	GC          bool     `json:"gc,omitempty"`          // run GC after load instead of building
 	Twice       bool     `json:"twice,omitempty"`       // run the target twice on the same loaded project
+	DryFirst    bool     `json:"dry_first,omitempty"`   // with Twice: the first run is a dry run, the second a real one
 	Reload      bool     `json:"reload,omitempty"`      // Reload() between the two runs
 	HashAround  bool     `json:"hash_around,omitempty"` // hash the whole tree after Load and again after Run/GC
 	// WarmOverlay (a directory) makes this a build on a long-lived project, the way `dawn watch` builds: the tree at Root
@@ -213,6 +214,8 @@ type BuildRes struct {
 	Run2Err string   `json:"run2_err,omitempty"`
 	GCErr   string   `json:"gc_err,omitempty"`
 	Events  []Event  `json:"events"`
+	// DryEvents: the events of the dry run that preceded the real one on the same Project (Engine.Build with DryFirst)
+	DryEvents []Event `json:"dry_events,omitempty"`
 	Targets []string `json:"targets,omitempty"`
 	Flags   []string `json:"flags,omitempty"`
 	Panic   string   `json:"panic,omitempty"`
@@ -288,7 +291,11 @@ func Build(req BuildReq) (res BuildRes) {
 		}
 		Disarmed.Store(false)
 	}
-	if err := proj.Run(l, opts); err != nil {
+	first := opts
+	if req.Twice && req.DryFirst {
+		first = &dawn.RunOptions{Always: req.Always, DryRun: true}
+	}
+	if err := proj.Run(l, first); err != nil {
 		res.RunErr = err.Error()
 		settle(rec)
 	}
